@@ -398,6 +398,40 @@ impl Elem for Nd {
     }
 }
 
+/// ONE-BYTE Clone-but-not-Copy element with no drop glue, stateful `Default` (serial numbers) and counted `Clone`:
+/// selects "looks like a byte" fast paths (memset / memcpy) while keeping caller code observable.
+#[derive(Debug, PartialEq)]
+pub struct Nb(pub u8);
+impl Clone for Nb {
+    fn clone(&self) -> Self {
+        if ledger::note_clone() {
+            std::panic::panic_any(Injected("clone"));
+        }
+        Nb(self.0)
+    }
+}
+impl Default for Nb {
+    fn default() -> Self {
+        ledger::tick("default");
+        Nb(plain_next() as u8)
+    }
+}
+impl Elem for Nb {
+    const NAME: &'static str = "Nb";
+    const TRACKED: bool = false;
+    const ZST: bool = false;
+    const COUNTS_CLONES: bool = true;
+    fn make() -> Self {
+        Nb(plain_next() as u8)
+    }
+    fn is_clone_of(&self, o: &Self) -> bool {
+        self.0 == o.0
+    }
+    fn ident(&self) -> u32 {
+        self.0 as u32
+    }
+}
+
 /// Zero-sized element WITHOUT drop glue whose `Default` and `Clone` calls are counted: selects the
 /// zero-sized *and* `needs_drop == false` code paths while keeping caller code observable.
 #[derive(Debug, PartialEq)]
